@@ -467,7 +467,8 @@ DirDeriv(sp, f, x, d) ==
       ok  == /\ deg <= 4
              \* the exact clause is stated on the quarter lattice with integer directions (32-bit rationals)
              /\ \A i \in 1..Len(x) : x[i][2] <= 4 /\ d[i][2] = 1
-             /\ deg > 2 => QLe(NormSq(sp, x), QI(64))          \* 4th powers of the 5-point stencil stay inside 32 bits
+             \* 4th powers of the 5-point stencil stay inside 32 bits: half lattice, moderate size
+             /\ deg > 2 => QLe(NormSq(sp, x), QI(64)) /\ \A i \in 1..Len(x) : x[i][2] <= 2
              /\ \A j \in 1..Len(pc) : pc[j] # Edge
              /\ \A k \in (-m)..m : Piece(sp, f, P(k)) = pc /\ XKnown(Val(sp, f, P(k)))
   IN IF ~ok THEN NaN
